@@ -9,11 +9,11 @@ BASE = dict(NRes=2, NClients=3, Forms="<- AllForms", FormStorable="<- StorableTa
             Kinds={"get", "range", "head"}, Conds={"none", "inm", "ims", "bad"})
 
 
-def fam(name, depth=30, backend="memory", genforms="AllForms", genvals=None, bodylen=256, limit=0, shards=0, chunked=False, **over):
+def fam(name, depth=30, backend="memory", genforms="AllForms", genvals=None, bodylen=256, limit=0, shards=0, chunked=False, late=False, **over):
     c = dict(BASE)
     c.update(over)
     return dict(name=name, consts=c, depth=depth, backend=backend, genforms=genforms, genvals=genvals or ALLVALS, bodylen=bodylen,
-                limit=limit, shards=shards, chunked=chunked)
+                limit=limit, shards=shards, chunked=chunked, late=late)
 
 
 def policy_families():
@@ -23,6 +23,10 @@ def policy_families():
     f.append(fam("px_memory_ignorecc", IgnoreCC=True))
     f.append(fam("px_file_forcedefault", backend="file", ForceDefault=True))
     f.append(fam("px_memory_shipped_defaults", IgnoreCC=True, ForceDefault=True))
+    # the policy switches (ignore_cache_control, force_default_max_age, default_max_age, retry_on_range_416) are changed at run
+    # time: the proxy is built under the opposite values and the family's are set afterwards; the latest values govern
+    f.append(fam("px_memory_policy_switched_off", late=True))
+    f.append(fam("px_file_policy_switched_on", backend="file", late=True, IgnoreCC=True, ForceDefault=True))
     return f
 
 
@@ -67,6 +71,9 @@ def reval_families():
     for be in ("memory", "file"):
         f.append(fam("px_%s_reval" % be, backend=be, depth=34, genforms="RevalForms", NRes=1, NClients=2, Kinds={"get"}, MaxX=8))
     f.append(fam("px_memory_reval_force", depth=34, genforms="RevalForms", NRes=1, NClients=2, Kinds={"get"}, ForceDefault=True))
+    # the corner where directives are ignored but the origin's lifetime still governs (ignore_cache_control=true,
+    # force_default_max_age=false): every spelling of max-age / Expires must win over a longer default
+    f.append(fam("px_memory_reval_ignorecc", depth=34, genforms="RevalForms", NRes=1, NClients=2, Kinds={"get"}, IgnoreCC=True, DefaultAge=5))
     return f
 
 
@@ -86,7 +93,8 @@ def run_family(f, num, seed, keep=None):
 def driver_config(f):
     c = f["consts"]
     return {"backend": f["backend"], "ignoreCC": c["IgnoreCC"], "forceDefault": c["ForceDefault"], "defaultAge": c["DefaultAge"],
-            "bodyLen": f["bodylen"], "emptyBody": f["bodylen"] == 0, "limitBytes": f.get("limit", 0), "shards": f.get("shards", 0), "chunked": f.get("chunked", False), "retry416": c.get("Retry416", False), "watchdogMs": 4000}
+            "bodyLen": f["bodylen"], "emptyBody": f["bodylen"] == 0, "limitBytes": f.get("limit", 0), "shards": f.get("shards", 0), "chunked": f.get("chunked", False), "retry416": c.get("Retry416", False), "watchdogMs": 4000,
+            "policyLate": f.get("late", False)}
 
 
 def replay_and_validate(f, hists, inp=None):
